@@ -47,7 +47,7 @@ PF = gen.Profile(
     weeks=(2, 4),
     max_slots=40,
     teams=True,
-    res_groups=False,
+    res_groups=True,
     year_end_holidays=True,
 )
 PF_SUB = replace(PF, subslot=True, odd_eff=True, max_slots=12)
